@@ -11,6 +11,23 @@ def run_pairs(chk, data, max_hist):
     for k in cand:
         for s in tc.scenes_of(hists[k]):
             variants.append((k, s, tc.project(hists[k], s)))
+    # the same histories with scene-less skip_epochs(n) calls (all four trackers): they act on scene 0 only
+    extra = []
+    for k in cand[: max(60, max_hist // 3)] + [k for k in cand if tc.is_visual(hists[k])][:30]:
+        hv = tc.with_sceneless_skips(hists[k], chk.seed)
+        if hv is not None:
+            extra.append(hv)
+    eruns = tc.run_impl(extra)
+    hists = list(hists)
+    runs = list(runs)
+    for hv, rv in zip(extra, eruns):
+        if rv is None or not tc.tie_free(hv, rv):
+            continue
+        hists.append(hv)
+        runs.append(rv)
+        for s in tc.scenes_of(hv):
+            variants.append((len(hists) - 1, s, tc.project(hv, s)))
+    run_pairs.sceneless = len(extra)
     vruns = tc.run_impl([v for _, _, v in variants])
     fails = {}
     compared = 0
@@ -25,7 +42,7 @@ def run_pairs(chk, data, max_hist):
             key = "interference:" + (a[i][0] if i < len(a) else "length")
             msg = ("scene %d: its %d-th call gives %s when calls of other scenes are interleaved and %s alone"
                    % (s, i, str(a[i])[:300] if i < len(a) else "-", str(b[i])[:300] if i < len(b) else "-"))
-            fails.setdefault(key, (k, msg, s))
+            fails.setdefault(key, (hists[k], msg, s))
     return fails, compared, len(cand)
 
 
@@ -48,10 +65,9 @@ def run(chk):
             fails.setdefault(key, (k, msg))
     found = tc.report_oracle_failures(chk, "C04", data, fails, lambda key: tc.ledger_fails("C04", key))
     pf, compared, nh = run_pairs(chk, data, 200 if chk.tier == "quick" else 2000)
-    chk.coverage["run_pairs"] = {"histories": nh, "scene_projections_compared": compared, "failing_keys": sorted(pf.keys()),
+    chk.coverage["run_pairs"] = {"histories": nh, "histories_with_sceneless_skip_epochs": getattr(run_pairs, "sceneless", 0), "scene_projections_compared": compared, "failing_keys": sorted(pf.keys()),
                                  "ledger_failing_keys": sorted(fails.keys())}
-    for key, (k, msg, s) in sorted(pf.items())[:4]:
-        h = data["hists"][k]
+    for key, (h, msg, s) in sorted(pf.items())[:4]:
 
         def f(hh, s=s):
             p = tc.project(hh, s)
